@@ -194,6 +194,7 @@ func fnGetRange(ctx *cmdContext, args map[string]any) (output respValue, err err
 	} else if valid == VALUE_EXISTS {
 		// convert negative indexes to positive
 		n := len(str)
+		reversed := start < 0 && end < 0 && start > end
 		if start < 0 {
 			start = n + start
 		}
@@ -201,14 +202,17 @@ func fnGetRange(ctx *cmdContext, args map[string]any) (output respValue, err err
 			end = n + end
 		}
 
-		// enforce boundaries
+		// enforce boundaries (an end that lies before the string is clamped to the first byte, as Redis does)
 		if start < 0 {
 			start = 0
 		} else if start > n {
 			start = n
 		}
+		if end < 0 {
+			end = 0
+		}
 
-		if end < start {
+		if reversed || end < start {
 			end = start - 1
 		} else if end >= n {
 			end = n - 1
